@@ -100,6 +100,32 @@ def oracle_value(b, off, size, kind, order):
     return None
 
 
+def corpus_structures(ctx, with_parameters=True):
+    """(relative path, IR, translator, module term, type index, type IR) of every byte-addressable structure of
+    testdata/*.emb that the view model covers (modules importing other modules are skipped)."""
+    out = []
+    for p in sorted(glob.glob(os.path.join(fw.REPO, "testdata", "*.emb"))):
+        rel = os.path.relpath(p, fw.REPO)
+        try:
+            cir, cerrs = compile_ir(open(p).read(), rel)
+            if cerrs or len(cir.module) != 2:       # the module itself and the prelude: no other imports
+                ctx.count("corpus-skipped:" + ("rejected" if cerrs else "imports"))
+                continue
+            ctr = view_x.ViewTranslator(cir)
+            cterm = ctr.module()
+            for k, t in enumerate(ctr.types):
+                # top-level views are constructed over bytes: structures only, not `bits` types
+                if (t.has_field("structure") and int(t.addressable_unit) == 8
+                        and all(pp.type.which_type == "integer" for pp in t.runtime_parameter)
+                        and (with_parameters or not t.runtime_parameter)):
+                    out.append((rel, cir, ctr, cterm, k, t))
+        except OutOfModel as ex:
+            ctx.count("corpus-out-of-model:" + str(ex).split(" ")[0])
+        except Exception as ex:
+            ctx.note("corpus file %s: %r" % (rel, ex))
+    return out
+
+
 def run(ctx):
     ctx.rule = ("modules from harness/gen_view.py (feature vector: scalars x widths x byte orders, conditions incl. switch pattern, "
                 "dynamic offsets/sizes, bits blocks, enums, virtual fields, aliases, nested structs, parameters (nested and top-level), an imported module, arrays, $next, requires, type-boundary virtual fields); "
@@ -173,6 +199,28 @@ def run(ctx):
             continue
         jobs.append(cpp_build.CppJob("m%d" % i, None, driver))
         infos.append(dict(i=i, text=text, mod=mod_term, top=top, bufs=bufs, prefix_pairs=prefix_pairs, pvals=pvals, oracle=gm.oracle))
+    # ---- the structures of testdata/*.emb (all features the upstream corpus uses) through the same comparison
+    corpus_types = corpus_structures(ctx)
+    chosen = corpus_types if ctx.thorough() else ctx.rng.sample(corpus_types, min(10, len(corpus_types)))
+    headers = {}
+    for ci, (rel, cir, ctr, cterm, k, t) in enumerate(chosen):
+        try:
+            if rel not in headers:
+                from compiler.back_end.cpp import header_generator
+                headers[rel] = header_generator.generate_header(cir)
+            header, herrs = headers[rel]
+            if herrs:
+                continue
+            pvals = [ctx.rng.choice([0, 1, 2, 3, 5]) for _ in t.runtime_parameter]
+            bufs = gen_view.buffers_for(ctx.rng, 40, 20) + [[ctx.rng.choice([0, 1, 2, 3]) for _ in range(n)] for n in (4, 8, 16, 32, 64)]
+            driver = ctr.driver("/*INLINE*/\n" + header, k, pvals, bufs)
+        except OutOfModel as ex:
+            ctx.count("corpus-out-of-model:" + str(ex).split(" ")[0])
+            continue
+        jobs.append(cpp_build.CppJob("m%d" % (1000 + ci), None, driver))
+        infos.append(dict(i=1000 + ci, text="# %s, structure %s\n" % (rel, ".".join(t.name.canonical_name.object_path)) + open(os.path.join(fw.REPO, rel)).read(),
+                          mod=cterm, top=k, bufs=bufs, prefix_pairs=[], pvals=pvals, oracle=[]))
+        ctx.count("corpus-structure")
     ctx.obligation("tie for size_is_max_end: %d structures' synthesized $size fields have the modelled shape" % n_size_checked,
                    n_size_checked > 0 and not any(v["key"] == "size-synthesis" for v in ctx.violations))
     results = cpp_build.run_jobs(os.path.join(ctx.bdir, "cpp"), jobs, parallel=fw.NPROC)
